@@ -6,10 +6,10 @@ CONSTANTS
   Readers = {r1, r2}
   Role = "master"
   Dur = "wait"
-  SvcSizes <- MCSvc
+  SvcSizes <- MCNone
   StartSize = 24
   Size <- MCSize
-  MaxCrash = 2
+  MaxCrash = 1
   MaxReads = 1
   MaxClose = 1
   AllowDesync = FALSE
